@@ -22,20 +22,7 @@ class C03(Property):
                 pieces = gen.gen_pieces(rng, opts, present_p=0.8)
                 # a short name declared under hide() is unknown to the tokenizer (known finding C02-hidden-short): do not
                 # write such an argument as `-Jvalue`, which bpaf reads as a plain word, not as a named occurrence
-                hidden = set()
-                for x in gen.walk(opts):
-                    if x["k"] == "hide":
-                        hidden.update(id(y) for y in gen.walk(x["p"]))
-                for p in pieces:
-                    if p.kind == "chunk" and p.chunk.form == "short_adj" and id(p.chunk.node) in hidden:
-                        nd = p.chunk.node
-                        nm = nd["n"]["short"][0].encode()
-                        items = [b"-" + nm + b"=" + p.chunk.value] if len(nm) == 1 else \
-                            ([b"--" + nd["n"]["long"][0].encode() + b"=" + p.chunk.value] if nd["n"]["long"] else None)
-                        if items is None and common.standalone(p.chunk.value) and not nd["adjacent"]:
-                            items = [b"-" + nm, p.chunk.value]
-                        if items is not None:
-                            p.items = items
+                pieces = common.avoid_hidden_short_adj(opts, pieces)
                 base = gen.flatten(pieces)
                 cases.append(Case(gid + "b", opts, base, tags={"role": "base", "group": gid}))
                 seen = {tuple(base)}
